@@ -33,9 +33,11 @@ const (
 	opRLock  // RWMutex.RLock
 	opShared // access to a shared package-level variable, or a sync/atomic operation
 	opObject // operation on a named object (e.g. a Write to the output): ordered against the other operations on that object only
+	opStart  // a spawned goroutine begins to run (goroutines run one at a time: a new one waits for the scheduler)
+	opResume // the partner of a rendezvous continues (the initiating side was released first)
 )
 
-var kindName = [...]string{"send", "recv", "select", "close", "wgwait", "choice", "lock", "rlock", "shared", "object"}
+var kindName = [...]string{"send", "recv", "select", "close", "wgwait", "choice", "lock", "rlock", "shared", "object", "start", "resume"}
 
 // SelCase describes one communication clause of a select (or the single operand of a send/recv).
 type SelCase struct {
@@ -92,6 +94,11 @@ type G struct {
 	goid   int64
 	wake   chan struct{}
 	pend   *op
+	parked *op // the op the goroutine itself is blocked in
+	postPark bool // set when released for a rendezvous: park again right after the real channel operation
+	deferred bool // its continuation (start / after-rendezvous) stays suspended until nothing else can run
+	forced   bool // was deferred and had to be let go: continue without asking again
+	ncont    int  // continuations of this goroutine so far
 	done   bool
 	killed bool
 	nkids  int
@@ -146,6 +153,7 @@ type Result struct {
 	Steps   int
 	Blocked []string // on deadlock: "<goroutine id> <op> @<site>" of everything parked
 	Leftover []string // same, for the goroutines still parked when the body returned
+	Continuations []string // "<goroutine id>#<k>": every continuation point (start, after-rendezvous) of the run, in order
 	Spawned int
 	Goroutines []string // hierarchical ids of every goroutine of the run
 }
@@ -164,6 +172,8 @@ type Sched struct {
 	prefix  []int
 	ncpu    int
 	starve  string
+	suspendG string
+	suspendK int
 	key     uint64
 	shared  vclock // join of the clocks of all shared-memory events so far (inherited by new goroutines)
 	res     Result
@@ -214,6 +224,7 @@ func (s *Sched) park(g *G, o *op) int {
 		panic(killedT{})
 	}
 	g.pend = o
+	g.parked = o
 	s.running--
 	s.cond.Broadcast()
 	s.mu.Unlock()
@@ -234,6 +245,17 @@ func PreSend(ch interface{}, site string) {
 	s.park(g, &op{kind: opSend, site: site, cases: []SelCase{{p, c, true, n, ch}}})
 }
 
+// Post is called right after the real channel operation of a send, receive or select clause: after a
+// rendezvous both sides park here, so each side's continuation is scheduled on its own.
+func Post() {
+	s, g := me()
+	if s == nil || !g.postPark {
+		return
+	}
+	g.postPark = false
+	s.park(g, &op{kind: opResume, site: "after-rendezvous"})
+}
+
 // Recv replaces `<-ch`.
 func Recv[T any](ch <-chan T, site string) T {
 	s, g := me()
@@ -241,7 +263,11 @@ func Recv[T any](ch <-chan T, site string) T {
 		p, c, n := chanInfo(ch)
 		s.park(g, &op{kind: opRecv, site: site, cases: []SelCase{{p, c, false, n, ch}}})
 	}
-	return <-ch
+	v := <-ch
+	if s != nil && g.postPark {
+		Post()
+	}
+	return v
 }
 
 // Recv2 replaces `v, ok := <-ch`.
@@ -252,6 +278,9 @@ func Recv2[T any](ch <-chan T, site string) (T, bool) {
 		s.park(g, &op{kind: opRecv, site: site, cases: []SelCase{{p, c, false, n, ch}}})
 	}
 	v, ok := <-ch
+	if s != nil && g.postPark {
+		Post()
+	}
 	return v, ok
 }
 
@@ -357,7 +386,11 @@ func (s *Sched) spawn(parent *G, f func()) *G {
 	}
 	child := &G{id: id, path: path, wake: make(chan struct{}, 1), clock: clk, num: len(s.gs), hid: fnv(14695981039346656037, id)}
 	s.gs = append(s.gs, child)
-	s.running++
+	if parent == nil {
+		s.running++
+	} else {
+		child.pend = &op{kind: opStart, site: "go"} // one goroutine runs at a time: the child starts when the scheduler says so
+	}
 	s.res.Spawned++
 	s.res.Goroutines = append(s.res.Goroutines, id)
 	s.mu.Unlock()
@@ -387,6 +420,12 @@ func (s *Sched) spawn(parent *G, f func()) *G {
 			s.cond.Broadcast()
 			s.mu.Unlock()
 		}()
+		if parent != nil {
+			<-child.wake
+			if child.killed {
+				panic(killedT{})
+			}
+		}
 		f()
 	}()
 	<-started
@@ -738,7 +777,10 @@ var Watchdog = func() time.Duration {
 
 func (s *Sched) release(g *G, chosen int) {
 	s.mu.Lock()
-	g.pend.chosen = chosen
+	if g.parked != nil {
+		g.parked.chosen = chosen
+	}
+	g.parked = nil
 	g.pend = nil
 	s.running++
 	s.mu.Unlock()
@@ -783,6 +825,16 @@ func Run(prefix []int, ncpu int, body func()) *Result {
 	return RunStarving(prefix, "", ncpu, body)
 }
 
+// RunSuspending is Run in which the k-th continuation (start, or resumption after a rendezvous) of goroutine
+// gid stays suspended for as long as anything else can run - in particular while the body returns.
+func RunSuspending(prefix []int, gid string, k int, ncpu int, body func()) *Result {
+	suspendNext = [2]interface{}{gid, k}
+	defer func() { suspendNext = [2]interface{}{} }()
+	return RunStarving(prefix, "", ncpu, body)
+}
+
+var suspendNext [2]interface{}
+
 // RunStarving is Run with a priority policy after the prefix: the goroutine with hierarchical id
 // `starve` (and, with a trailing "*", its descendants) is only scheduled when nothing else is enabled.
 // The choices taken are recorded in Trace as usual, so the execution can be replayed with Run.
@@ -792,6 +844,10 @@ func RunStarving(prefix []int, starve string, ncpu int, body func()) *Result {
 	}
 	s := &Sched{shared: vclock{}, byGoid: map[int64]*G{}, chans: map[uintptr]*chanState{}, wg: map[interface{}]*wgState{}, locks: map[interface{}]*lockState{}, prefix: prefix, ncpu: ncpu, starve: starve}
 	s.cond = sync.NewCond(&s.mu)
+	s.suspendK = -1
+	if g, ok := suspendNext[0].(string); ok {
+		s.suspendG, s.suspendK = g, suspendNext[1].(int)
+	}
 	curMu.Lock()
 	if cur != nil {
 		curMu.Unlock()
@@ -848,11 +904,50 @@ func RunStarving(prefix []int, starve string, ncpu int, body func()) *Result {
 				break
 			}
 		}
+		// local continuations: a goroutine that was just spawned, or that has just completed a rendezvous. Its
+		// continuation commutes with every other transition (the code up to its next scheduling point touches
+		// nothing the scheduler models) except the end of the program, so it is taken at once and is not a
+		// choice point - except in a run of the suspension family (RunSuspending), where the k-th continuation
+		// of one goroutine stays suspended until nothing else can run (or the body has returned).
+		if !progressed {
+			cand := append(append([]*G{}, s.ordered()[1:]...), main) // the body's own continuation last
+			for _, g := range cand {
+				if g.done || g.pend == nil || (g.pend.kind != opStart && g.pend.kind != opResume) || g.deferred {
+					continue
+				}
+				if !g.forced && g != main {
+					k := g.ncont
+					g.ncont++
+					s.res.Continuations = append(s.res.Continuations, g.id+"#"+strconv.Itoa(k))
+					if s.suspendG == g.id && s.suspendK == k {
+						g.deferred = true
+						progressed = true
+						break
+					}
+				}
+				g.forced = false
+				s.last = append(s.last[:0], g)
+				s.release(g, 0)
+				progressed = true
+				break
+			}
+		}
 		if progressed {
 			continue
 		}
 		ts := s.enabled()
 		if len(ts) == 0 {
+			// suspended continuations must go on now
+			forcedAny := false
+			for _, g := range s.ordered() {
+				if !g.done && g.deferred {
+					g.deferred, g.forced = false, true
+					forcedAny = true
+				}
+			}
+			if forcedAny {
+				continue
+			}
 			s.res.Outcome = "deadlock"
 			for _, g := range s.ordered() {
 				if !g.done && g.pend != nil {
@@ -992,6 +1087,10 @@ func RunStarving(prefix []int, starve string, ncpu int, body func()) *Result {
 		}
 		s.res.Points[len(s.res.Points)-1].Last = s.lastHash()
 		if t.partner != nil {
+			// a rendezvous needs both sides to perform the real channel operation; each then parks again at once
+			// (Post), so that the two continuations are transitions of their own: either side may run on -
+			// even to the end of the program - before the other does anything
+			t.partner.postPark, t.g.postPark = true, true
 			s.release(t.partner, t.pcase)
 		}
 		s.release(t.g, t.caseIdx)
